@@ -283,5 +283,5 @@ def adev_param_agreement(ctx, rule="SIB-estimator-parameterisation"):
             ctx.ok(rule, construct, f"sample and sample_with_key both tfd.{kcls}{kbind}")
 
 
-RULES = [parameterisation, exports, pjaxr.sample_shape_threading, adev_param_agreement]
+RULES = [parameterisation, exports, pjaxr.sample_shape_threading, pjaxr.flat_sampler_staging, pjaxr.vmap_lane_randomness, adev_param_agreement]
 FLOOR = 40
